@@ -11,7 +11,7 @@ def scenario_json(case):
         arr[int(k)] = v
     progs = [case["threads"][str(t)] for t in range(1, len(case["threads"]) + 1)]
     pool = [[int(c), v] for c, v in sorted(case.get("pool", {}).items())]
-    return {"trunk": case["trunk"], "tree": arr, "progs": progs, "pool": pool}
+    return {"trunk": case["trunk"], "tree": arr, "progs": progs, "pool": pool, "max_orphans": case.get("max_orphans", 200)}
 
 
 def linearise(case, out):
@@ -20,13 +20,15 @@ def linearise(case, out):
     ev = out["events"]
     commits = [e[0] for e in ev if e[2] == "lmdb_commit"]
     items = []
-    stats = {"sections": 0, "reads": 0, "heads": 0, "heads_ambiguous": 0, "vtx": 0}
+    hp = out["hp_addr"]
+    stats = {"sections": 0, "reads": 0, "heads": 0, "heads_ambiguous": 0, "vtx": 0, "scans": 0, "hdr_at": 0, "hdr_of": 0,
+             "read_errors": 0}
     by_thread = {}
     for e in ev:
         by_thread.setdefault(e[1], []).append(e)
     for c in out["calls"]:
         t = c["t"]
-        if c["k"] in ("ProcessBlock", "ProcessHeader"):
+        if c["k"] in ("ProcessBlock", "ProcessHeader", "Compact"):
             # a section = w_acq(txhashset) .. w_rel(txhashset); its effects become visible at its last
             # LMDB commit (readers that take no chain lock read committed LMDB state), so that is its
             # position in the linearisation (w_rel when it commits nothing)
@@ -44,9 +46,22 @@ def linearise(case, out):
             items.append((c["s1"], {"k": "End", "t": t, "i": c["i"], "res": c["res"]}))
         elif c["k"] == "GetUnspent":
             acq = [e[0] for e in by_thread.get(t, []) if c["s0"] < e[0] < c["s1"] and e[2] == "r_acq" and e[3] == tx]
-            if acq and c["val"] >= -1:
+            if c["val"] < -1:
+                stats["read_errors"] += 1      # get_unspent returned Err: reported by the driver, not placed
+            elif acq:
                 items.append((acq[0], {"k": "Read", "t": t, "c": c["c"], "val": c["val"]}))
                 stats["reads"] += 1
+        elif c["k"] in ("HdrAt", "HdrOf"):
+            # positioned by the first read-lock acquisition of the header MMR: block / header sections hold its
+            # WRITE lock around their commit, so the view is the state before or after a whole section
+            acq = [e[0] for e in by_thread.get(t, []) if c["s0"] < e[0] < c["s1"] and e[2] == "r_acq" and e[3] == hp]
+            if acq:
+                if c["k"] == "HdrAt":
+                    items.append((acq[0], {"k": "HdrAt", "t": t, "h": c["h"], "id": c["id"]}))
+                    stats["hdr_at"] += 1
+                else:
+                    items.append((acq[0], {"k": "HdrOf", "t": t, "c": c["c"], "id": c["id"]}))
+                    stats["hdr_of"] += 1
         elif c["k"] == "Scan":
             acq = [e[0] for e in by_thread.get(t, []) if c["s0"] < e[0] < c["s1"] and e[2] == "r_acq" and e[3] == tx]
             if acq:
@@ -69,6 +84,115 @@ def linearise(case, out):
            "unspent": [[int(c), h] for c, h in sorted(f["unspent"].items(), key=lambda x: int(x[0]))],
            "orph": f["orph"], "bodies": f["bodies"], "hdrs": f["hdrs"]}
     return [x[1] for x in items] + [fin], stats
+
+
+def normalise(seq):
+    """seq = [[op, lock]] with op in r_acq/r_rel/w_acq/w_rel/m_acq/m_rel.  (1) A batch that is dropped without commit
+    releases the LMDB writer before the chain locks are released: insert the missing m_rel.  (2) Leaf locks (a lock
+    other than tx/hp acquired and released with nothing acquired in between) are kept out of the model."""
+    out, held = [], False
+    for op, l in seq:
+        if op == "m_acq":
+            if held:                # a second batch while the first was dropped
+                out.append(["m_rel", "db"])
+            held = True
+        if op == "m_rel":
+            if not held:
+                continue
+            held = False
+        if held and op in ("r_rel", "w_rel") and l in ("tx", "hp"):
+            out.append(["m_rel", "db"])
+            held = False
+        out.append([op, l])
+    if held:
+        out.append(["m_rel", "db"])
+    keep, i = [], 0
+    while i < len(out):
+        op, l = out[i]
+        if l not in ("tx", "hp", "db") and op in ("r_acq", "w_acq") and i + 1 < len(out) and out[i + 1][1] == l \
+                and out[i + 1][0] in ("r_rel", "w_rel"):
+            i += 2
+            continue
+        keep.append([op, l])
+        i += 1
+    return keep
+
+
+def sections(proto):
+    """Cut a protocol wherever the thread holds no lock at all (resource-use marks are not lock events)."""
+    secs, cur, held = [], [], 0
+    for op, l in proto:
+        if op.startswith("use_"):
+            continue
+        cur.append([op, l])
+        held += 1 if op.endswith("_acq") else -1
+        if held <= 0:
+            secs.append(cur)
+            cur, held = [], 0
+    if cur:
+        secs.append(cur)
+    return secs
+
+
+def observed_sections(out):
+    """Per kind of call of a threaded run: the distinct sections on the named chain locks and the LMDB writer."""
+    tx, hp = out["tx_addr"], out["hp_addr"]
+    name = {tx: "tx", hp: "hp"}
+    by_thread = {}
+    for e in out["events"]:
+        by_thread.setdefault(e[1], []).append(e)
+    res = {}
+    for c in out["calls"]:
+        if "s0" not in c:
+            continue
+        seq = []
+        for e in by_thread.get(c["t"], []):
+            if c["s0"] < e[0] < c["s1"]:
+                if e[3] in name and e[2] in ("w_acq", "w_rel", "r_acq", "r_rel"):
+                    seq.append([e[2], name[e[3]]])
+                elif e[2] == "lmdb_begin":
+                    seq.append(["m_acq", "db"])
+                elif e[2] == "lmdb_commit":
+                    seq.append(["m_rel", "db"])
+        for sec in sections(normalise(seq)):
+            lst = res.setdefault(c["k"], [])
+            if sec not in lst:
+                lst.append(sec)
+    return res
+
+
+def deadlock_signature(named_sections):
+    """A narrow name for a deadlock TLC found in the lock model: the pattern that makes one possible.
+    named_sections: {"op+op": [[op, lock], ...]}"""
+    # (a) a read lock taken again while it is held (a queued writer in between blocks both)
+    writers = {l for sec in named_sections.values() for op, l in sec if op in ("w_acq", "m_acq")}
+    for names, sec in sorted(named_sections.items()):
+        held = []
+        for op, l in sec:
+            if op.endswith("_acq"):
+                if l in held and l in writers:
+                    return "locks:deadlock:model:reacquired:%s:%s" % (l, names.split("+")[0])
+                held.append(l)
+            elif l in held:
+                held.remove(l)
+    # (b) two sections that take two locks in opposite orders: name the side fewer operations are on
+    order = {}
+    for names, sec in sorted(named_sections.items()):
+        held = []
+        for op, l in sec:
+            if op.endswith("_acq"):
+                for h in held:
+                    if h != l:
+                        order.setdefault((h, l), []).append(names)
+                held.append(l)
+            elif l in held:
+                held.remove(l)
+    for (a, b), who in sorted(order.items()):
+        if (b, a) in order and a < b:
+            w1, w2 = who, order[(b, a)]
+            side, first, second = (w1, a, b) if len(w1) <= len(w2) else (w2, b, a)
+            return "locks:deadlock:model:order:%s_before_%s:%s" % (first, second, side[0].split("+")[0])
+    return "locks:deadlock:model"
 
 
 def lock_protocols(out):
